@@ -62,7 +62,7 @@ def stepL (s : Sys) (op obs : List String) : Sys × Option String :=
     match r with
     | .errUnissued =>
       -- either kind is a faithful "rejected"; the monitor decides whether it is the RFC's kind
-      let tok (k : ErrKind) : String := match k with
+      let tok (k : Local.ErrKind) : String := match k with
         | .connectionIdLimit => "err CIL" | .protocolViolation => "err PV" | .transportParameter => "err TP"
       if theirs == tok (Local.unissuedKind false) || theirs == tok (Local.unissuedKind true) then (s', none)
       else (s', some s!"{tok (Local.unissuedKind false)} | fixed: {tok (Local.unissuedKind true)}")
